@@ -104,6 +104,21 @@ pub fn all_cfgs(_quick: bool) -> Vec<Cfg> {
             }
         }
     }
+    // SPI staging buffers shorter than the longest command frames of the init sequences (2, 3, 4, 6 bytes: legal, they
+    // hold one or two pixels): command framing must not depend on the buffer
+    for (i, info) in BUILTINS.iter().enumerate() {
+        if !info.supports[0] {
+            continue;
+        }
+        for len in [2u16, 3, 4, 6] {
+            if info.c666 && len < 3 {
+                continue;
+            }
+            for rst in [false, true] {
+                v.push(Cfg { model: ModelId::Builtin(i as u8), tr: Transport::Spi { len }, win: None, orient: 3, bgr: true, invert: true, refresh: 1, rst, flags: 0 });
+            }
+        }
+    }
     v
 }
 
